@@ -188,10 +188,14 @@ def stream_long(ctx, lengths):
         {"S": 0, "nT": 2, "rules": [["3/10", 0, [["T", 0], ["N", 0]]], ["7/10", 0, [["T", 1]]]]},
         {"S": 0, "nT": 2, "rules": [["1/5", 0, [["T", 0], ["N", 0], ["T", 1]]], ["4/5", 0, []]]},
         {"S": 0, "nT": 2, "rules": [["1/4", 0, [["N", 0], ["N", 0]]], ["1/2", 0, [["T", 0]]], ["1/4", 0, [["T", 1]]]]},
+        # per-token probability ~ 5e-6: prefix probabilities far below the double range (1e-1000 and less)
+        {"S": 0, "nT": 2, "rules": [["1/200000", 0, [["T", 0], ["N", 1]]], ["199999/200000", 0, [["T", 1]]], ["1/300000", 1, [["T", 0], ["N", 0]]], ["1/2", 1, [["T", 1], ["N", 0]]], ["149999/300000", 1, []]]},
     ]
     for gi, g in enumerate(gs):
         for L in lengths:
-            if gi == 0:
+            if gi == 3:
+                c = [0] * max(L, 150)
+            elif gi == 0:
                 c = [0] * L
             elif gi == 1:
                 c = [0] * L + [1] * (L // 2)
